@@ -161,6 +161,10 @@ m('c09-get-batch-short', ['C09'], 'streamz/sources.py',
   "                if high <= msg.offset():\n                    break",
   "                if high <= msg.offset() + (1 if low and high - low > 1 else 0):\n                    break",
   'get_message_batch drops the last message of some batches')
+m('c09-ignore-low-watermark', ['C09'], 'streamz/sources.py',
+  "                lowest = max(current_position, low)",
+  "                lowest = max(current_position, 0)",
+  'messages deleted by retention are requested anyway')
 # ---- C10 -----------------------------------------------------------------
 m('c10-partition-append', ['C10'], 'streamz/core.py',
   "        if isinstance(metadata, list):\n            metadata_buffer.extend(metadata)\n        else:\n            metadata_buffer.append(metadata)\n        if len(buffer) == self.n:",
